@@ -49,7 +49,8 @@ type Obs struct {
 	File       bool       `json:"file_written"`
 	GofmtClean bool       `json:"gofmt_clean"`
 	BuildOK    bool       `json:"build_ok"`
-	Outcome    string     `json:"outcome"` // built | err | bad
+	Outcome    string     `json:"outcome"`         // built | err | bad
+	Fallback   bool       `json:"format_fallback"` // gencommon.Write logged that formatting failed and wrote the raw template output
 	Errors     []string   `json:"errors,omitempty"`
 	Classes    []ErrClass `json:"classes,omitempty"`
 	Vet        []string   `json:"vet,omitempty"`
@@ -207,6 +208,12 @@ func (p *pkgState) prepare(farm string) error {
 		c.Label = s.Sort.Label
 		c.Shapes = append(c.Shapes, sortShapes(s.Sort)...)
 		c.Generate = "gsort -types=" + s.Sort.Type
+	case "canary":
+		files = map[string]string{"b_def.go": "package " + s.ID + "\n\n//go:generate cp gen.txt b_def.canary.go\n\n// T is a canary.\ntype T int\n",
+			"gen.txt": strings.ReplaceAll(canaryBodies[s.Kind], "PKG", s.ID)}
+		p.genFile = filepath.Join(p.dir, "b_def.canary.go")
+		c.Label = s.Kind
+		c.Generate = "cp gen.txt b_def.canary.go"
 	default:
 		return fmt.Errorf("unknown tool %q", s.Tool)
 	}
@@ -227,6 +234,8 @@ func (p *pkgState) assertions() string {
 		return assertEnum(s.ID, s.Enum, s.GOpts)
 	case "gerror":
 		return assertErr(s.ID, s.Err)
+	case "canary":
+		return "package " + s.ID + "\n"
 	default:
 		return assertSort(s.ID, s.Sort)
 	}
@@ -260,6 +269,9 @@ func (p *pkgState) collectRefs() {
 	if hasKind(s.Enum, "reflect_kind") {
 		p.c.Imports = append(p.c.Imports, [2]string{"reflect", "reflect"})
 	}
+	if hasKind(s.Enum, "dot_duration") {
+		p.c.Imports = append(p.c.Imports, [2]string{"time", "."})
+	}
 	sl := sortedLines(s.Enum)
 	if len(sl) == 0 {
 		return
@@ -285,7 +297,7 @@ func (p *pkgState) collectRefs() {
 				r.TypeName = "Other"
 			case "other_enum2":
 				r.TypeName = "Extra"
-			case "duration":
+			case "duration", "dot_duration":
 				r.PkgPath, r.PkgName, r.TypeName = "time", "time", "Duration"
 			case "reflect_kind":
 				r.PkgPath, r.PkgName, r.TypeName = "reflect", "reflect", "Kind"
@@ -320,6 +332,7 @@ var (
 	reUndefined = regexp.MustCompile(`undefined: (\w+)`)
 	reRedecl    = regexp.MustCompile(`(\w+) redeclared in this block`)
 	reNotType   = regexp.MustCompile(`^(\w+) is not a type`)
+	reWrongType = regexp.MustCompile(`wrong type for method (\w+)`)
 )
 
 func (p *pkgState) classify(msgs []string) []ErrClass {
@@ -366,6 +379,8 @@ func (p *pkgState) classify(msgs []string) []ErrClass {
 			}
 		}
 		switch {
+		case reWrongType.MatchString(msg):
+			add(ErrClass{"wrong_method_signature", reWrongType.FindStringSubmatch(msg)[1], where})
 		case reMissing.MatchString(msg):
 			add(ErrClass{"missing_method", reMissing.FindStringSubmatch(msg)[1], where})
 		case reUndefined.MatchString(msg):
@@ -384,6 +399,8 @@ func (p *pkgState) classify(msgs []string) []ErrClass {
 			add(ErrClass{"unused_import", "", where})
 		case strings.Contains(msg, "already declared") || strings.Contains(msg, "duplicate method"):
 			add(ErrClass{"duplicate_declaration", "", where})
+		case strings.Contains(msg, "syntax error"):
+			add(ErrClass{"syntax_error", "", where})
 		case strings.Contains(msg, "too many errors"):
 		default:
 			add(ErrClass{"other", msg, where})
@@ -445,7 +462,45 @@ func galCase(c Case) string {
 		}
 		return "(mk_tref " + gal.Str(r.Kind) + " " + pkg + " " + gal.Str(r.TypeName) + " " + gal.Str(r.Observed) + ")"
 	}) +
+		"; gc_fallback := " + gal.Bool(c.Obs.Fallback) +
 		"; gc_obs := " + obs + " |}"
+}
+
+// canaries: packages whose "generated" file is known to be bad; they check that the farm's own
+// observation pipeline (gofmt -l, go build attribution) flags what it must flag.
+var canaryBodies = map[string]string{
+	"canary_gofmt":  "package PKG\n\nfunc   Unformatted( )  int {return 1}\n",
+	"canary_syntax": "package PKG\n\nfunc Broken() ..int {\n",
+	"canary_type":   "package PKG\n\nfunc IllTyped() float { return 1 }\n",
+	"canary_good":   "package PKG\n\n// Fine is fine.\nfunc Fine() int { return 1 }\n",
+}
+
+func canarySpecs() []*Spec {
+	var out []*Spec
+	for _, k := range []string{"canary_gofmt", "canary_syntax", "canary_type", "canary_good"} {
+		out = append(out, &Spec{Tool: "canary", Kind: k})
+	}
+	return out
+}
+
+func maskOf(o *GenumOpts) int {
+	m := 0
+	if !o.JSON {
+		m |= 1
+	}
+	if !o.YAML {
+		m |= 2
+	}
+	if !o.Text {
+		m |= 4
+	}
+	if o.CI {
+		m |= 8
+	}
+	if o.DisableTraits {
+		m |= 16
+	}
+	return m
 }
 
 func tail(s string, n int) string {
@@ -466,7 +521,16 @@ func main() {
 	par := flag.Int("par", 16, "parallel go generate runs")
 	subsetCap := flag.Int("subsets", 7, "thorough: parsable subsets per definition and setting")
 	vet := flag.Bool("vet", true, "also record go vet output")
+	settingsF := flag.String("settings", "", "keep only genum cases whose switch setting is in this comma-separated list of masks (bit0 json off, bit1 yaml off, bit2 text off, bit3 caseInsensitive, bit4 disableTraits)")
+	maxN := flag.Int("max", 0, "keep at most this many generated cases (seeded sample; corpus/-in specs are always kept)")
 	flag.Parse()
+	if *mode == "sigs" {
+		if err := writeIfaceSigs(*outp); err != nil {
+			fmt.Fprintln(os.Stderr, err)
+			os.Exit(1)
+		}
+		return
+	}
 	r := gal.NewRand(*seed)
 
 	var specs []*Spec
@@ -492,15 +556,43 @@ func main() {
 		}
 		f.Close()
 	}
+	var gen []*Spec
 	switch *mode {
 	case "quick":
-		specs = append(specs, quickSpecs(r)...)
+		gen = quickSpecs(r)
 	case "thorough":
-		specs = append(specs, thoroughSpecs(r, *subsetCap)...)
+		gen = thoroughSpecs(r, *subsetCap)
 	case "spec":
 	default:
 		fmt.Fprintln(os.Stderr, "unknown mode")
 		os.Exit(2)
+	}
+	if *settingsF != "" {
+		keep := map[int]bool{}
+		for _, f := range strings.Split(*settingsF, ",") {
+			var m int
+			if _, err := fmt.Sscan(strings.TrimSpace(f), &m); err == nil {
+				keep[m] = true
+			}
+		}
+		var g2 []*Spec
+		for _, s := range gen {
+			if s.Tool == "genum" && keep[maskOf(s.GOpts)] {
+				g2 = append(g2, s)
+			}
+		}
+		gen = g2
+	}
+	if *maxN > 0 && len(gen) > *maxN {
+		r.Shuffle(len(gen), func(i, j int) { gen[i], gen[j] = gen[j], gen[i] })
+		gen = gen[:*maxN]
+	}
+	specs = append(specs, gen...)
+	ncanary := 0
+	if *mode != "spec" {
+		cs := canarySpecs()
+		ncanary = len(cs)
+		specs = append(specs, cs...)
 	}
 	for i, s := range specs {
 		s.ID = fmt.Sprintf("p%04d", i)
@@ -532,6 +624,7 @@ func main() {
 			t := time.Now()
 			rc, log := run(*farm, env, 5*time.Minute, "go", "generate", "./"+p.spec.ID)
 			p.c.Obs.Exit = rc
+			p.c.Obs.Fallback = strings.Contains(log, "formatting of source file failed")
 			p.c.Obs.GenLog = tail(log, 1500)
 			p.c.Obs.Secs = time.Since(t).Seconds()
 			_, err := os.Stat(p.genFile)
@@ -583,6 +676,7 @@ func main() {
 		fmt.Fprintf(os.Stderr, "c13: go vet: %.1fs\n", time.Since(t0).Seconds())
 	}
 	out := gal.NewOut(*outp)
+	canaries := []Case{}
 	for _, p := range pk {
 		o := &p.c.Obs
 		o.GofmtClean = o.File && !unformatted[p.genFile]
@@ -627,7 +721,16 @@ func main() {
 			o.GenLog = ""
 		}
 		p.collectRefs()
+		if p.spec.Tool == "canary" {
+			canaries = append(canaries, p.c)
+			continue
+		}
 		out.Case(galCase(p.c), p.c)
 	}
 	out.Close()
+	_ = ncanary
+	cb, _ := json.Marshal(canaries)
+	if err := os.WriteFile(*outp+".canary.json", cb, 0o644); err != nil {
+		panic(err)
+	}
 }
